@@ -19,6 +19,7 @@ TEXT = ("Typestate analysis of the four-state field Delta.status, exhaustive ove
         "empty map, every Ok return lies behind the marking and apply passes, and no block is parsed into the block map "
         "after a marking step has run. A5: the object-availability predicate returns true only on index membership or a verified read. "
         "Does not decide equality of incremental refreshes with a full reload over histories.")
+TECHNIQUE = 'static analysis over rustc MIR: typestate of Delta.status (edge dominance + reachability with pass edges removed, loop and all()/any() closure forms), transition-table extraction, sibling agreement of the three loaders'
 TRUSTED = ["rustc nightly MIR", "derive(PartialEq) on the fieldless enum Status compares discriminants",
            "C10/H1: the pack loader and the object reader verify hashes"]
 
